@@ -3,6 +3,7 @@
 package netmap
 
 import (
+	"github.com/nspcc-dev/neo-go/pkg/crypto/keys"
 	"github.com/nspcc-dev/neo-go/pkg/network/payload"
 	netmaprpc "github.com/nspcc-dev/neofs-contract/rpc/netmap"
 )
@@ -14,3 +15,8 @@ func VerifNewAddNode(node netmaprpc.NetmapNode2, nr *payload.P2PNotaryRequest) A
 
 // VerifNewEpoch builds a NewEpoch notification event.
 func VerifNewEpoch(num uint64) NewEpoch { return NewEpoch{num: num} }
+
+// VerifNewUpdatePeer builds an UpdatePeer event as the notary parser would.
+func VerifNewUpdatePeer(key *keys.PublicKey, nr *payload.P2PNotaryRequest) UpdatePeer {
+	return UpdatePeer{publicKey: key, notaryRequest: nr}
+}
